@@ -18,6 +18,7 @@ package sfnt
 
 import (
 	"fmt"
+	"slices"
 
 	"golang.org/x/exp/maps"
 	"seehuhn.de/go/postscript/cid"
@@ -261,15 +262,20 @@ func (s *subsetter) SubsetGsub(old *gtab.Info) *gtab.Info {
 				sNew := &gtab.Gsub1_2{
 					Cov: make(map[glyph.ID]int),
 				}
+				newTo := make(map[glyph.ID]glyph.ID)
 				for oldOrig := range sOld.Cov {
 					newFrom, ok := s.newGid[oldOrig]
 					if !ok {
 						continue
 					}
-
-					newTo := oldOrig + sOld.Delta
+					newTo[newFrom] = s.getNewGid(oldOrig + sOld.Delta)
+				}
+				// coverage indices must increase with the (new) glyph ID
+				newFroms := maps.Keys(newTo)
+				slices.Sort(newFroms)
+				for _, newFrom := range newFroms {
 					sNew.Cov[newFrom] = len(sNew.SubstituteGlyphIDs)
-					sNew.SubstituteGlyphIDs = append(sNew.SubstituteGlyphIDs, s.getNewGid(newTo))
+					sNew.SubstituteGlyphIDs = append(sNew.SubstituteGlyphIDs, newTo[newFrom])
 				}
 				if len(sNew.Cov) > 0 {
 					tNew.Subtables = append(tNew.Subtables, sNew)
@@ -281,9 +287,10 @@ func (s *subsetter) SubsetGsub(old *gtab.Info) *gtab.Info {
 			case *gtab.Gsub3_1:
 				panic("not implemented")
 			case *gtab.Gsub4_1:
-				sNew := gtab.Gsub4_1{
+				sNew := &gtab.Gsub4_1{
 					Cov: make(coverage.Table),
 				}
+				newLigs := make(map[glyph.ID][]gtab.Ligature)
 				for oldFirst, idx := range sOld.Cov {
 					newFirst, ok := s.newGid[oldFirst]
 					if !ok {
@@ -307,9 +314,18 @@ func (s *subsetter) SubsetGsub(old *gtab.Info) *gtab.Info {
 						ligs = append(ligs, newLig)
 					}
 					if len(ligs) > 0 {
-						sNew.Cov[newFirst] = len(sNew.Repl)
-						sNew.Repl = append(sNew.Repl, ligs)
+						newLigs[newFirst] = ligs
 					}
+				}
+				// coverage indices must increase with the (new) glyph ID
+				newFirsts := maps.Keys(newLigs)
+				slices.Sort(newFirsts)
+				for _, newFirst := range newFirsts {
+					sNew.Cov[newFirst] = len(sNew.Repl)
+					sNew.Repl = append(sNew.Repl, newLigs[newFirst])
+				}
+				if len(sNew.Cov) > 0 {
+					tNew.Subtables = append(tNew.Subtables, sNew)
 				}
 			case *gtab.Gsub8_1:
 				panic("not implemented")
